@@ -88,6 +88,7 @@ E_GATE_FACTOR = 10.0
 E_MAX_STEPS = 200000
 E_WALL_BUDGET_S = 30.0
 E_W2 = 1e-6
+E_W2_FAST = 1e-3
 E_CORE_FRAC = 0.6
 # known finding (c): drift of the Takeuchi families <= DRIFT_LAW * (r0/Rc)^(2l+1)   (Rc = radius of the uniform region)
 DRIFT_LAW = 15.0
@@ -134,6 +135,10 @@ def cases_r0(tier, seed):
             for l in ls:
                 for mt in muts:
                     out.append(dict(sub='r0', planet=planet, fam=fam, l=l, mt=mt * f, td=0.05, w2=E_W2))
+                    if fam.startswith('kamata-dynamic'):
+                        # a second, non-quasi-static frequency makes the inertial terms of the ODE matter (Kamata only: the
+                        # drift law of the known Takeuchi finding is calibrated at w~2 = 1e-6)
+                        out.append(dict(sub='r0', planet=planet, fam=fam, l=l, mt=mt * f, td=0.05, w2=E_W2_FAST))
     return out
 
 
@@ -337,7 +342,10 @@ def run_ode(c):
                 if max(a / t for (a, _), t in zip(res2, tols)) <= 1.0 and xmin <= 0.1 * (1 + 1e-6):
                     site = 'C04/z-taylor-branch'
         viol.append((site, detail))
-    obs = (fam, kind, l, c['body'], w, c['r0f'], round(math.log10(max(worst, 1e-300)), 1))
+    # observable = the returned vectors themselves (scaled to common units, normalised, 6 significant digits)
+    yn = (ys[0] / unit)
+    yn = yn / np.max(np.abs(yn), axis=1)[:, None]
+    obs = tuple(float('%.6g' % v) for v in np.concatenate([yn.real.ravel(), yn.imag.ravel()]))
     return dict(status='pass', viol=viol, obs=obs, worst=worst, over=max(over))
 
 
@@ -479,12 +487,12 @@ def run_r0(c):
         elif s == 'nonfinite':
             viol.append((f'C04/{fam}/nonfinite-love-with-success', dict(r0f=r0f)))
     if len(sols) < 2:
-        return dict(status='pass' if viol else 'inadmissible:' + ','.join(f'{k:g}:{v}' for k, v in stat.items())[:120],
-                    viol=viol, obs=None)
+        return dict(status='pass' if viol else 'inadmissible:fewer-than-2-admitted-start-radii', viol=viol, obs=None, stat=stat)
     rc = 1.0 if c['planet'] == 'uniform' else E_CORE_FRAC
     keys = sorted(sols)
     worst = {}          # site -> (excess, detail)
     drift_tab = {}
+    margin = 0.0
     for i, a in enumerate(keys):
         for b in keys[i + 1:]:
             la, ya, ga = sols[a]
@@ -495,6 +503,8 @@ def run_r0(c):
             drift_tab[f'{a:g}-{b:g}'] = (d_love, d_y)
             law = DRIFT_LAW * (b / rc) ** (2 * l + 1)
             for what, d, fac in (('r0-drift', d_love, 1.0), ('r0-drift-radial-functions', d_y, E_TOL_Y_FACTOR)):
+                if d <= tol * fac:
+                    margin = max(margin, d / (tol * fac))
                 if d > tol * fac:
                     if fam.startswith('takeuchi') and d <= law:
                         site = 'C04/takeuchi/r0-drift-y6'
@@ -507,7 +517,7 @@ def run_r0(c):
         viol.append((site, det))
     ref = sols[keys[0]][0]
     obs = (c['planet'], fam, l, round(c['mt'], 6), tuple(round(float(x), 9) for x in (ref[0].real, ref[0].imag, ref[1].real)))
-    return dict(status='pass', viol=viol, obs=obs, drift=drift_tab, stat=stat)
+    return dict(status='pass', viol=viol, obs=obs, drift=drift_tab, stat=stat, margin=margin)
 
 
 def run_xfam(c):
@@ -533,7 +543,8 @@ def run_xfam(c):
             viol.append((site, dict(diff=d, tol=tol, takeuchi=got[0][0], kamata=got[1][0], law_bound=law)))
     lv = got[1][0]
     obs = (c['planet'], c['assumption'], c['l'], round(c['mt'], 6), c['r0f'], round(float(lv[0].real), 9), round(float(lv[0].imag), 9))
-    return dict(status='pass', viol=viol, obs=obs, d_love=d_love, d_y=d_y)
+    return dict(status='pass', viol=viol, obs=obs, d_love=d_love, d_y=d_y,
+                margin=max([d / (tol * fac) for d, fac in ((d_love, 1.0), (d_y, E_TOL_Y_FACTOR)) if d <= tol * fac] or [0.0]))
 
 
 # =================================================================================================================
@@ -559,10 +570,10 @@ def run(ctx):
         raise HarnessError(f'reference model self-test failed: {W}')
     ctx.coverage['refmodel_selftest'] = {k: float('%.3g' % v) for k, v in W.items()}
     t, s = ctx.tier, ctx.seed
-    res = run_lattice(ctx, 'mc.props.C04:run_case', cases_ode(t, s),
+    res_ode = res = run_lattice(ctx, 'mc.props.C04:run_case', cases_ode(t, s),
                       rule='ode: family{Takeuchi,Kamata} x layer kind(6) x l{2,3,5,8} x core material(5) x omega(4) x r0/R(6): '
                            'span-invariance residual of the starting vectors under the TS72/S74/KMN15 reference matrices; '
-                           'distinct = distinct (configuration, log10 residual to 0.1)', exhaustive=False, chunk=64)
+                           'distinct = distinct returned starting-vector sets (scaled, normalised, 6 digits)', exhaustive=False, chunk=64)
     # vacuity: every implemented (family, kind) block must have admitted cases
     blocks = {}
     for c, r in zip(cases_ode(t, s), res):
@@ -574,23 +585,43 @@ def run(ctx):
         elif not st.startswith('inadmissible'):
             b[0] += 1
     ctx.coverage['ode_admitted_by_block'] = {f'{k[0]}/{k[1]}': f'{v[0]}/{v[1]}' for k, v in sorted(blocks.items())}
+    short = []
     for k, (adm, tot, ni) in sorted(blocks.items()):
         if ni == tot:
             continue
         if adm < 0.15 * tot:
-            raise HarnessError(f'vacuity guard: ode block {k} admits only {adm}/{tot}')
-    run_lattice(ctx, 'mc.props.C04:run_case', cases_z(t, s),
+            short.append(f'ode block {k} admits only {adm}/{tot}')
+    resz = run_lattice(ctx, 'mc.props.C04:run_case', cases_z(t, s),
                 rule='z: l{2,3,5,8} x |x^2|(16 values straddling 0.1) x arg x^2(5) x observation channel(2) vs mpmath '
-                     'x j_{l+1}(x)/j_l(x); distinct = distinct reference values', exhaustive=False, min_admitted_frac=0.8)
+                     'x j_{l+1}(x)/j_l(x); distinct = distinct reference values', exhaustive=False)
     r0c = cases_r0(t, s)
     res = run_lattice(ctx, 'mc.props.C04:run_case', r0c,
                       rule='r0: planet{uniform, uniform core+mantle} x family(5) x l x mu~ ; each case = 6 start radii r0/R in '
                            '{1e-4..0.5} x 2 gate solves, pairwise agreement of Love numbers and mantle radial functions; '
-                           'distinct = distinct Love numbers', exhaustive=False, chunk=1, min_admitted_frac=0.7)
+                           'distinct = distinct Love numbers', exhaustive=False, chunk=1)
+    mg = {}
+    for c, r in zip(r0c, res):
+        if 'margin' in r:
+            mg[c['fam']] = max(mg.get(c['fam'], 0.0), r['margin'])
+    ctx.coverage['r0_worst_passing_drift_over_tol_by_family'] = {k: float('%.3g' % v) for k, v in sorted(mg.items())}
     n_adm = sum(1 for r in res for v in (r.get('stat') or {}).values() if v == 'ok')
     ctx.coverage['r0_admitted_solves'] = f'{n_adm}/{len(r0c) * len(E_R0F)}'
-    run_lattice(ctx, 'mc.props.C04:run_case', cases_xfam(t, s),
+    resx = run_lattice(ctx, 'mc.props.C04:run_case', cases_xfam(t, s),
                 rule='xfam: planet x {static, dynamic} x l x mu~ x r0/R{1e-3,1e-2,5e-2}: Takeuchi vs Kamata Love numbers / mantle radial functions',
-                exhaustive=False, chunk=1, min_admitted_frac=0.5)
+                exhaustive=False, chunk=1)
+    ctx.coverage['xfam_worst_passing_diff_over_tol'] = float('%.3g' % max([r.get('margin', 0.0) for r in resx] or [0.0]))
+    ctx.coverage['z_worst_passing_rel'] = float('%.3g' % max([r.get('rel', 0.0) for r in resz if not r.get('viol')] or [0.0]))
+    ode_m = {}
+    for c, r in zip(cases_ode(t, s), res_ode):
+        if 'over' in r and not r.get('viol'):
+            k = c['fam'] + '/' + c['kind']
+            ode_m[k] = max(ode_m.get(k, 0.0), r['over'])
+    ctx.coverage['ode_worst_passing_residual_over_tol'] = {k: float('%.3g' % v) for k, v in sorted(ode_m.items())}
+    for name, rr, need in (('z', resz, 0.8), ('r0', res, 0.6), ('xfam', resx, 0.4)):
+        adm = sum(1 for r in rr if not r.get('status', 'pass').startswith('inadmissible'))
+        if adm < need * len(rr):
+            short.append(f'{name} sub-lattice admits only {adm}/{len(rr)} (< {need:.0%})')
+    from mc.props.C01 import vacuity_guard
+    vacuity_guard(ctx, short)
     ctx.coverage['tolerance'] = dict(ode=TOL_ODE, ode_cond=TOL_ODE_COND, repair=TOL_REPAIR, z=Z_TOL, z_known_max=Z_KNOWN_MAX,
                                      e_tol=E_TOL, e_gate=E_GATE, e_rtol=E_RTOL, e_atol=E_ATOL, drift_law=DRIFT_LAW)
